@@ -2,4 +2,5 @@
 //! `sort_printed_planes`. Under Kani `HashMap` in planes.rs is the bounded model map.
 #![allow(dead_code, unused_imports, unused_variables, unused_mut, clippy::all)]
 mod c12;
+mod table;
 mod c15;
